@@ -34,6 +34,8 @@ func runStream(name string, args []string) {
 		streamSc(o)
 	case "rgl":
 		streamRgl(o)
+	case "al":
+		streamAl(o)
 	case "pl":
 		streamPl(o)
 	case "reg":
